@@ -122,7 +122,9 @@ type Sched struct {
 	steps     int
 	switches  int
 	stop      bool
-	dead      bool // teardown has begun: every instrumented operation exits its goroutine
+	nowSkew   int64 // nanoseconds added to the readings of NowUnique so far
+	lastNowG  int   // goroutine of the last NowUnique reading
+	dead      bool  // teardown has begun: every instrumented operation exits its goroutine
 	crash     *Crash
 	lastRun   *G
 	start     time.Time
@@ -620,6 +622,24 @@ func yieldG(g *G, site string) {
 	if g.frozen {
 		parkForever(g)
 	}
+}
+
+// NowUnique is time.Now for code that uses wall-clock nanoseconds as identity (chunk ids): the simulated clock stands still
+// while code runs, the real one never does, so a reading by another goroutine than the previous one is a nanosecond later
+func NowUnique() time.Time {
+	s := active.Load()
+	if s == nil {
+		return time.Now()
+	}
+	s.mu.Lock()
+	// (readings of one goroutine - one id generator - at one instant stay equal: that is the generator's own sequence path)
+	if g := s.cur; g != nil && g.ID != s.lastNowG {
+		s.nowSkew++
+		s.lastNowG = g.ID
+	}
+	d := s.nowSkew
+	s.mu.Unlock()
+	return time.Now().Add(time.Duration(d))
 }
 
 // fine is set for the duration of a run that asked for fine-grained interleaving (read by the goroutines of that run only)
